@@ -8,6 +8,12 @@ CLAIMS = {
          "Static decision of the structural necessary conditions of DAG admission: every path to a successful parse / verification / graph write crosses the pass edge of each required check; step and verifier tables complete; storage writers owned. Exhaustive over the current source; necessary conditions, not the behavioural property itself.",
          "Trusts go/ssa's model of the program, jwx and go-stoabs semantics (leaves). Does not decide signature mathematics or concurrent histories."),
 }
+CLAIMS["C04"] = ("dataflow inventory of request attributes read by the auth guard (with positive-control fixture) + must-pass-through on the token middleware + bind/route constant tables",
+  "Static decision that the authentication guard and the router inspect the same request attribute, that the next handler is reachable only through every token check (else 401), and that bind and route tables keep internal segments on the internal listener. Exhaustive over the current source; necessary structural conditions.",
+  "Trusts go/ssa, echo's dispatch on URL.Path/RawPath and middleware ordering, jwx verification. Does not decide library request-line parsing.")
+CLAIMS["C17"] = ("closed-world ownership of jwx verification primitives + must-pass-through (one-signature, allow-list, key source) per consumer + constant allow-list tables under both build-tag sets",
+  "Static decision that signed tokens are verified only in vetted consumers, each requiring exactly one signature, an allow-listed asymmetric algorithm (or key-derived algorithm) and a key from the protocol's source. Exhaustive over the current source; necessary structural conditions.",
+  "Trusts go/ssa and the jwx library's verification; OpenID-configuration metadata JWT and PKI denylist are listed owners outside the property's token list.")
 PENDING = {}
 
 def main():
